@@ -25,9 +25,16 @@ package utils
 
 // read-only accessors of a value (frame PROVED: no store to caller-visible
 // memory); used by the group-by result reader (C04)
+// the number a value stands for, as the aggregation and bin code reads it
+//@ spec cvHasFloat(e *CValueEnclosure) bool = e.Dtype == SS_DT_UNSIGNED_NUM || e.Dtype == SS_DT_SIGNED_NUM || e.Dtype == SS_DT_FLOAT
+//@ spec cvFloat(e *CValueEnclosure) float64 = ite(e.Dtype == SS_DT_UNSIGNED_NUM, float64(e.CVal.(uint64)), ite(e.Dtype == SS_DT_SIGNED_NUM, float64(e.CVal.(int64)), e.CVal.(float64)))
 //@ func (*CValueEnclosure).GetFloatValue
-//@   props C04
+//@   props C04 C06
 //@   pure
+//@   requires e != nil
+//@   requires [value-holds-what-its-type-says] implies(e.Dtype == SS_DT_UNSIGNED_NUM, isdyn(e.CVal, uint64)) && implies(e.Dtype == SS_DT_SIGNED_NUM, isdyn(e.CVal, int64)) && implies(e.Dtype == SS_DT_FLOAT, isdyn(e.CVal, float64))
+//@   ensures [numbers-have-a-float-value] (result1 == nil) == cvHasFloat(e)
+//@   ensures [the-float-value-is-the-number] implies(cvHasFloat(e), feq(result0, cvFloat(e)))
 //@ end
 //@ func (*CValueEnclosure).GetUIntValue
 //@   props C04
